@@ -97,6 +97,13 @@ def noninit_tuple_family(out, prop, rng):
     return n
 
 
+def _msg(e):
+    try:
+        return str(e)[:200]
+    except Exception as e2:
+        return f'<rendering the {type(e).__name__} raised {type(e2).__name__}: {e2}>'
+
+
 def construction_paths_family(out, prop):
     """Defaults, factories and hooks on every construction path (constructor by position / by keyword, make_unchecked, mapping data,
     sequence data).  Oracle: a field that was not supplied holds its declared default -- the very object for default=, a FRESH
@@ -139,7 +146,7 @@ def construction_paths_family(out, prop):
                 a.index['seven'] = 7
                 b = mk()
             except Exception as e:
-                out.violation(f'{prop}:construction-paths:{type(e).__name__}', f'{label}: {type(e).__name__}: {str(e)[:200]}', {'path': label})
+                out.violation(f'{prop}:construction-paths:{type(e).__name__}', f'{label}: {type(e).__name__}: {_msg(e)}', {'path': label})
                 continue
             made[label] = b
             if b.items != [] or b.index != {} or b.items is a.items or b.index is a.index:
@@ -162,10 +169,50 @@ def construction_paths_family(out, prop):
                 b = mk()
             except Exception as e:
                 out.violation(f'{prop}:hook-assigning-field:{type(e).__name__}', f'{label}: building Box(width=2, height=3), whose __post_init__ assigns self.area, raised '
-                              f'{type(e).__name__}: {str(e)[:200]}', {'path': label})
+                              f'{type(e).__name__}: {_msg(e)}', {'path': label})
                 continue
             if (b.width, b.height, b.area) != (2, 3, 6):
                 out.violation(f'{prop}:hook-assigning-field', f'{label}: got {b!r}, expected Box(width=2, height=3, area=6)', {'path': label})
+        # a hook that reads the set-field record: it sees the same record on every path (what was supplied, nothing else)
+        seen = []
+
+        class Watch(pane.PaneBase, in_format=('tuple', 'struct')):
+            x: int
+            y: int = 0
+            z: t.Optional[str] = None
+
+            def __post_init__(self):
+                seen.append(sorted(self.__pane_set__))
+                if 'z' in self.__pane_set__ and self.z is None:
+                    raise ValueError('z was given as None')
+        watch_paths = {
+            'constructor': (lambda: Watch(1), ['x']), 'constructor by keyword': (lambda: Watch(x=1, y=2), ['x', 'y']), 'make_unchecked': (lambda: Watch.make_unchecked(1), ['x']),
+            'mapping data': (lambda: pane.from_data({'x': 1}, Watch), ['x']), 'mapping data with y': (lambda: pane.from_data({'x': 1, 'y': 2}, Watch), ['x', 'y']),
+            'sequence data': (lambda: pane.from_data([1], Watch), ['x']), 'Watch.from_data': (lambda: Watch.from_data({'x': 1}), ['x']),
+            'nested mapping data': (lambda: pane.from_data([{'x': 1}], t.List[Watch])[0], ['x']),
+            'union member': (lambda: pane.from_data({'x': 1}, t.Union[int, Watch]), ['x']),
+            'copy': (lambda: __import__('copy').copy(Watch(1)), ['x']), 'replace': (lambda: Watch(1).__replace__(y=2), ['x', 'y']),
+        }
+        for label, (mk, want) in watch_paths.items():
+            n += 1
+            del seen[:]
+            try:
+                b = mk()
+            except Exception as e:
+                out.violation(f'{prop}:hook-reading-set-record:{type(e).__name__}', f'{label}: building Watch(x=1, ...), whose __post_init__ reads self.__pane_set__, raised '
+                              f'{type(e).__name__}: {_msg(e)} (the hook saw {seen})', {'path': label})
+                continue
+            if not seen or any(s_ != want for s_ in seen[-1:]) or sorted(b.__pane_set__) != want:
+                out.violation(f'{prop}:hook-reading-set-record', f'{label}: the hook saw the set-field record {seen}, the instance ends with {sorted(b.__pane_set__)}, '
+                              f'supplied were {want}', {'path': label})
+        n += 1
+        try:
+            pane.from_data({'x': 1, 'z': None}, Watch)
+            out.violation(f'{prop}:hook-reading-set-record', 'mapping data with z: None was accepted although the hook refuses an explicit None', {'path': 'z given'})
+        except ConvertError:
+            pass
+        except Exception as e:
+            out.violation(f'{prop}:hook-reading-set-record:{type(e).__name__}', f'mapping data with z: None raised {type(e).__name__}: {_msg(e)}', {'path': 'z given'})
     return n
 
 
